@@ -53,6 +53,8 @@ def model_request(kind, p):
         ids, vals, k = ids_of(p), p["vals"], p["k"]
         if a in ("greedy", "roundrobin", "kk", "ckk", "snp", "rnp"):
             return (a, [keep, k, ids, vals])
+        if a == "multifit":
+            return ("multifit", [keep, p.get("iterations", 10), k, ids, vals])
         if a == "cg":
             o, ok = p.get("objective", [2, 0])
             f = p.get("flags", [1, 1, 0, 1])
@@ -295,6 +297,24 @@ def compare(kind, p, how, impl, model):
         if how == "set":
             a, b = sorted(a), sorted(b)
         return None if a == b else f"impl {a} vs model {b}"
+    if kind == "binner_ops" and how == "live":
+        # only arrays that are live under the hand-over discipline are compared (after every operation)
+        dead = set()
+        nh = 0
+        for step, o in enumerate(p["ops"]):
+            if o[0] in (0, 2):
+                nh += 1
+            elif o[0] in (4, 5):
+                dead.add(o[1]); nh += 1
+            elif o[0] == 6:
+                dead.add(o[1]); dead.add(o[2]); nh += 1
+            io, mo = impl["obs"][step], model["obs"][step]
+            if len(io) != len(mo):
+                return f"after operation {step} {o}: impl has {len(io)} arrays, model {len(mo)}"
+            for h in range(len(io)):
+                if h not in dead and io[h] != mo[h]:
+                    return f"after operation {step} {o}: array #{h} impl {io[h]} vs model {mo[h]}"
+        return None
     # plain equality of dicts
     return None if impl == model else f"impl {short(impl)} vs model {short(model)}"
 
